@@ -118,10 +118,15 @@ def is_prefix(a, b):
     return a == b or b.startswith(a + "/")
 
 
-def patterns(old, new, ign):
-    """Which of the change patterns that the uploader mishandles occur in old -> new (sets of names)."""
+def patterns(old, new, ign, old_ign=None):
+    """Which of the change patterns that the uploader mishandles occur in old -> new (sets of names).
+    ign = ignore list of the uploaded tree (the one in force), old_ign = the one of the remote's revision."""
     d = classify(old, new)
     out = set()
+    if old_ign is not None and old_ign != ign:
+        # a path that was ignored when the remote revision was uploaded (so it is not on the remote) and is not now
+        if any(ignored(old_ign, v[0]) and not ignored(ign, v[0]) for v in old.values()):
+            out.add("unignored")
     ren = d["renamed"]
     o = {i: old[i][0] for i in ren}
     n = {i: new[i][0] for i in ren}
@@ -145,8 +150,13 @@ def patterns(old, new, ign):
                 out.add("rename-into-later-dir")
         if n[i] in rem_dirs or any(is_prefix(dd, n[i]) or is_prefix(n[i], dd) for dd in rem_dirs):
             out.add("rename-onto-removed-dir")
-        if ignored(ign, o[i]) != ignored(ign, n[i]):
-            out.add("ignore-boundary")
+        # only these two ignore-boundary renames fail on the unchanged code: the old path was never uploaded, or
+        # the directory of the new path was never uploaded.  (not ignored -> ignored works: the entry is moved
+        # away; both ignored: skipped.)
+        if ignored(ign, o[i]) and not ignored(ign, n[i]):
+            out.add("rename-from-ignored")
+        if not ignored(ign, o[i]) and dirname(n[i]) and ignored(ign, dirname(n[i])):
+            out.add("rename-into-ignored-dir")
     for i in d["removed"]:
         if old[i][1] == "d" and any(is_prefix(o[j], old[i][0]) for j in ren):
             out.add("removed-dir-under-rename")
@@ -286,6 +296,106 @@ def _obs_listing(ls, tmps, revids):
     return [r[1] for r in rows]
 
 
+def _commit_state(wt, cur, st):
+    """make the working tree hold the abstract tree st (it holds cur), commit, check the committed revision tree"""
+    _realise(wt, cur, st)
+    rid = wt.commit("c", allow_pointless=True)
+    tree = wt.branch.repository.revision_tree(rid)
+    got = {}
+    with tree.lock_read():
+        for path, ie in tree.iter_entries_by_dir():
+            if path == "":
+                continue
+            k = {"file": "f", "directory": "d", "symlink": "l"}[ie.kind]
+            data = tree.get_file_text(path) if k == "f" else (ie.symlink_target.encode() if k == "l" else b"")
+            got[int(ie.file_id[2:])] = (path, k, data, int(bool(ie.executable)) if k == "f" else 0)
+    want = {i: (v[0], v[1], v[2] if v[1] != "d" else b"", v[3] if v[1] == "f" else 0) for i, v in st.items()}
+    if got != want:
+        raise RuntimeError("commit does not realise the requested tree: %r vs %r" % (got, want))
+    return rid
+
+
+def _scratch():
+    base, own = _scratch()
+    return base, own
+
+
+def _tmp_order(ls):
+    """temporary names in creation order (stamp = time.pid.random)"""
+    names = sorted({p.split("/")[0] for p in ls if p.startswith(".tmp.")},
+                   key=lambda n: (float(".".join(n.split(".")[2:4])), n))
+    return names
+
+
+def _run_cmd(inp, want_raw=False):
+    """kind "cmd": the real command object cmd_upload().run(...) on a branch whose tip is committed / uncommitted."""
+    import breezy.bzr  # noqa
+    from breezy import controldir, errors as berrors
+    from breezy.plugins.upload import cmds
+    from breezy.revisionspec import RevisionSpec
+    from breezy.uncommit import uncommit
+    from dromedary import errors as terrors
+    base, own = _scratch()
+    try:
+        wt = controldir.ControlDir.create_standalone_workingtree(
+            base + "/b", format=controldir.format_registry.make_controldir("2a"))
+        os.mkdir(base + "/up")
+        states = [rev_map(r) for r in inp["revs"]]
+        trees, parents, steps = plan(inp)
+        revids = []
+        cur = {}
+        tip = None
+        marker = None
+        out, raw = [], []
+        for op in inp["script"]:
+            if op[0] == "commit":
+                revids.append(_commit_state(wt, cur, states[op[1]]))
+                cur = states[op[1]]
+                tip = len(revids) - 1
+            elif op[0] == "uncommit":
+                uncommit(wt.branch, tree=wt, revno=wt.branch.revno() - op[1] + 1)
+                for _ in range(op[1]):
+                    tip = parents[tip]
+                if wt.branch.last_revision() != revids[tip]:
+                    raise RuntimeError("uncommit did not rewind to the expected revision")
+            else:
+                o = op[1]
+                k = tip if o.get("rev") is None else o["rev"]
+                cmd = cmds.cmd_upload()
+                cmd.outf = io.StringIO()
+                kw = {}
+                if o.get("rev") is not None:
+                    kw["revision"] = [RevisionSpec.from_string("revid:" + revids[k].decode())]
+                status = Tag("ok")
+                try:
+                    cmd.run(base + "/up", full=bool(o.get("full")), overwrite=bool(o.get("overwrite")),
+                            directory=base + "/b", quiet=True, **kw)
+                except cmds.DivergedUploadedTree:
+                    status = Err("DivergedUploadedTree")
+                except (terrors.TransportError, OSError, NotImplementedError) as e:
+                    status = Err(type(e).__name__)
+                ls = _listing(base + "/up")
+                raw.append((str(status), ls))
+                tmps = _tmp_order(ls)
+                if status == "DivergedUploadedTree":
+                    out.append([status, _obs_listing(ls, tmps, revids)])
+                    continue
+                if status != "ok":
+                    if (not o.get("full")) and marker is not None and \
+                            len(classify(rev_map(trees[marker]), rev_map(trees[k]))["kind_changed"]) >= 2:
+                        out.append([Tag("order-dependent")])
+                    else:
+                        out.append([status, _obs_listing(ls, tmps, revids)])
+                    break
+                out.append([status, _obs_listing(ls, tmps, revids)])
+                marker = k
+        return (out, raw) if want_raw else out
+    finally:
+        shutil.rmtree(base, ignore_errors=True)
+        if own:
+            shutil.rmtree(own, ignore_errors=True)
+
+
 def _run(inp, want_raw=False):
     import breezy.bzr  # noqa
     from breezy import controldir, transport
@@ -309,23 +419,8 @@ def _run(inp, want_raw=False):
         revids = []
         cur = {}
         for st in revs:
-            _realise(wt, cur, st)
+            revids.append(_commit_state(wt, cur, st))
             cur = st
-            rid = wt.commit("c", allow_pointless=True)
-            revids.append(rid)
-            # the committed revision tree is what was asked for
-            tree = wt.branch.repository.revision_tree(rid)
-            got = {}
-            with tree.lock_read():
-                for path, ie in tree.iter_entries_by_dir():
-                    if path == "":
-                        continue
-                    k = {"file": "f", "directory": "d", "symlink": "l"}[ie.kind]
-                    data = tree.get_file_text(path) if k == "f" else (ie.symlink_target.encode() if k == "l" else b"")
-                    got[int(ie.file_id[2:])] = (path, k, data, int(bool(ie.executable)) if k == "f" else 0)
-            want = {i: (v[0], v[1], v[2] if v[1] != "d" else b"", v[3] if v[1] == "f" else 0) for i, v in st.items()}
-            if got != want:
-                raise RuntimeError("commit does not realise the requested tree: %r vs %r" % (got, want))
         out = []
         raw = []
         uploaded = None     # index of the revision the marker names
@@ -359,7 +454,38 @@ def _run(inp, want_raw=False):
 
 
 def impl(inp):
-    return _run(inp)
+    return _run_cmd(inp) if inp.get("kind") == "cmd" else _run(inp)
+
+
+def plan(inp):
+    """Normal form of an input: (tree per commit, left-hand parent per commit, upload steps (commit, full, overwrite)).
+    kind "cmd": {"revs": states, "script": [["commit", state] | ["uncommit", n] | ["upload", {full, overwrite, rev}]]}
+    default kind: every revision is a commit on one line; BzrUploader is driven directly (= --overwrite)."""
+    if inp.get("kind") == "cmd":
+        trees, parents, steps = [], [], []
+        tip = None
+        for op in inp["script"]:
+            if op[0] == "commit":
+                trees.append(inp["revs"][op[1]])
+                parents.append(tip)
+                tip = len(trees) - 1
+            elif op[0] == "uncommit":
+                for _ in range(op[1]):
+                    tip = parents[tip]
+            else:
+                o = op[1]
+                steps.append((tip if o.get("rev") is None else o["rev"], bool(o.get("full")), bool(o.get("overwrite"))))
+        return trees, parents, steps
+    n = len(inp["revs"])
+    return inp["revs"], [None] + list(range(n - 1)), [(k, bool(f), True) for f, k in inp["steps"]]
+
+
+def is_ancestor(parents, j, k):
+    while k is not None:
+        if k == j:
+            return True
+        k = parents[k]
+    return False
 
 
 # ----------------------------------------------------------------------------
@@ -392,6 +518,13 @@ def _coq_tree(rev):
 
 
 def model_term(inp):
+    if inp.get("kind") == "cmd":
+        trees, parents, steps = plan(inp)
+        ts = "[" + "; ".join(_coq_tree(r) for r in trees) + "]"
+        ps = "[" + "; ".join("None" if p is None else "Some %d%%nat" % p for p in parents) + "]"
+        ss = "[" + "; ".join("(%d%%nat, %s, %s)" % (k, "true" if f else "false", "true" if o else "false")
+                             for k, f, o in steps) + "]"
+        return "run_cmd_case %s %s %s" % (ts, ps, ss)
     revs = "[" + "; ".join(_coq_tree(r) for r in inp["revs"]) + "]"
     steps = "[" + "; ".join("(%s, %d%%nat)" % ("true" if f else "false", k) for f, k in inp["steps"]) + "]"
     return "run_case %s %s" % (revs, steps)
@@ -412,20 +545,35 @@ def _expected(rev):
 
 def _step_failures(inp, raw):
     """[(step index, message)] -- first violated step only."""
-    for si, ((full, k), (status, ls)) in enumerate(zip(inp["steps"], raw)):
-        exp, ign = _expected(inp["revs"][k])
+    trees, parents, steps = plan(inp)
+    marker = None
+    prev = {}
+    for si, ((k, full, ow), (status, ls)) in enumerate(zip(steps, raw)):
+        what = "%s%s upload of revision %d" % ("full" if full else "incremental", " --overwrite" if ow and inp.get("kind") == "cmd" else "", k)
+        if marker is not None and not ow and not is_ancestor(parents, marker, k):
+            # the remote holds a revision that is not an ancestor: the command has to refuse and touch nothing
+            if status != "DivergedUploadedTree":
+                return [(si, "step %d (%s): the remote revision %d is not an ancestor and --overwrite was not given, "
+                             "but the upload was not refused (%s)" % (si, what, marker, status))]
+            if ls != prev:
+                return [(si, "step %d (%s): refused upload changed the remote" % (si, what))]
+            continue
+        exp, ign = _expected(trees[k])
         if status != "ok":
-            return [(si, "step %d (%s upload of revision %d) raised %s" % (si, "full" if full else "incremental", k, status))]
+            return [(si, "step %d (%s) raised %s" % (si, what, status))]
+        # every remote path that is not ignored (ignore list in force = the uploaded tree's), not the ignore file and
+        # not the marker must be in the uploaded tree with the same kind/content/exec bit, and vice versa
         got = {p: v for p, v in ls.items() if p not in (MARK, IGN) and not ignored(ign, p)}
         if got != exp:
             extra = sorted(set(got) - set(exp))
             missing = sorted(set(exp) - set(got))
             diff = sorted(p for p in set(got) & set(exp) if got[p] != exp[p])
-            return [(si, "step %d (%s upload of revision %d): remote differs from the tree: extra=%r missing=%r different=%r"
-                     % (si, "full" if full else "incremental", k, extra, missing,
-                        [(p, got[p], exp[p]) for p in diff]))]
+            return [(si, "step %d (%s): remote differs from the tree: extra=%r missing=%r different=%r"
+                     % (si, what, extra, missing, [(p, got[p], exp[p]) for p in diff]))]
         if MARK not in ls:
             return [(si, "step %d: marker missing" % si)]
+        marker = k
+        prev = ls
     return []
 
 
@@ -477,7 +625,7 @@ FINDINGS = {
     "C43-rename-loses-change": {"rename+kind", "rename+retarget", "rename+exec"},
     "C43-incremental-symlink": {"symlink-subdir", "symlink-modified"},
     "C43-full-keeps-stale": {"full-stale", "full-symlink-over-file"},
-    "C43-ignore-boundary": {"ignore-boundary", "ignore-list-changed", "ignored-under-removed-dir"},
+    "C43-ignore-boundary": {"rename-from-ignored", "rename-into-ignored-dir", "unignored", "ignored-under-removed-dir"},
 }
 
 
@@ -487,29 +635,28 @@ def failing_step_patterns(inp, why):
     if not m:
         return set()
     si = int(m.group(1))
-    revs = [rev_map(r) for r in inp["revs"]]
-    uploaded = None
-    for j, (full, k) in enumerate(inp["steps"]):
+    trees, parents, steps = plan(inp)
+    marker = None       # the revision the remote holds before step si (earlier steps behaved as the oracle demands)
+    for j, (k, full, ow) in enumerate(steps):
+        refused = marker is not None and not ow and not is_ancestor(parents, marker, k)
         if j == si:
-            new = revs[k]
-            ign = rev_ign(inp["revs"][k])
-            if full or uploaded is None:
+            if refused:
+                return set()
+            new = rev_map(trees[k])
+            ign = rev_ign(trees[k])
+            if full or marker is None:
                 out = set()
-                if uploaded is not None:
-                    oldp = {v[0]: v for v in revs[uploaded].values()}
+                if marker is not None:
+                    oldp = {v[0]: v for v in rev_map(trees[marker]).values()}
                     newp = {v[0]: v for v in new.values()}
                     if any(p not in newp or any(is_prefix(q, p) and newp[q][1] != "d" and q != p for q in newp) for p in oldp):
                         out.add("full-stale")
                     if any(p in oldp and oldp[p][1] == "f" and v[1] == "l" for p, v in newp.items()):
                         out.add("full-symlink-over-file")
-                    if rev_ign(inp["revs"][uploaded]) != ign:
-                        out.add("ignore-list-changed")
                 return out
-            out = patterns(revs[uploaded], new, ign)
-            if rev_ign(inp["revs"][uploaded]) != ign:
-                out.add("ignore-list-changed")
-            return out
-        uploaded = k
+            return patterns(rev_map(trees[marker]), new, ign, rev_ign(trees[marker]))
+        if not refused:
+            marker = k
     return set()
 
 
@@ -744,49 +891,146 @@ def _exhaustive_dir():
                 yield seq(base, new)
 
 
+def cmdseq(states, script):
+    return {"kind": "cmd", "revs": [{"ents": list(x)} for x in states], "script": script}
+
+
+def UP(full=0, overwrite=0, rev=None):
+    return ["upload", {"full": full, "overwrite": overwrite, "rev": rev}]
+
+
+def _ignore_boundary_cases():
+    """renames across / inside / outside the ignore list, .bzrignore-upload present from the first upload"""
+    I = F(9, IGN, "c\ne\n")
+    for k in ("f", "d"):
+        def E(i, p):
+            return [F(i, p, "A")] if k == "f" else [D(i, p), F(i + 1, p + "/b", "B")]
+        yield seq([I] + E(1, "a"), [I] + E(1, "c"))                       # not ignored -> ignored
+        yield seq([I] + E(1, "c"), [I] + E(1, "a"))                       # ignored -> not ignored (never uploaded)
+        yield seq([I] + E(1, "c"), [I] + E(1, "e"))                       # ignored -> ignored
+        yield seq([I] + E(1, "a"), [I] + E(1, "d"))                       # not ignored -> not ignored
+        yield seq([I] + E(1, "a"), [I] + E(1, "c"), [I] + E(1, "b"))      # ... and back (the remote has it)
+        yield seq([I] + E(1, "a"), [I] + E(1, "c"), [I] + E(1, "e"), [I])  # moved between ignored names, removed
+        yield seq([I, D(5, "d")] + E(1, "a"), [I, D(5, "d")] + E(1, "d/c"))   # into a directory, ignored name
+        yield seq([I, D(5, "c")] + E(1, "a"), [I, D(5, "c")] + E(1, "c/a"))   # into an ignored directory
+        yield seq([I, F(5, "b", "X")] + E(1, "a"), [I, F(5, "a", "X")] + E(1, "c"))  # chain a->c, b->a
+
+
+def _cmd_corpus():
+    s0 = [F(1, "a", "A")]
+    s1 = [F(1, "a", "A"), F(2, "b", "B"), D(3, "d"), F(4, "d/c", "C")]
+    s1b = [F(1, "a", "A2"), F(5, "e", "E")]
+    # upload r1, uncommit, commit r1', upload -> refused; --overwrite -> incremental delta from r1 (deletes b, d, d/c)
+    yield cmdseq([s0, s1, s1b], [["commit", 0], UP(), ["commit", 1], UP(), ["uncommit", 1], ["commit", 2], UP(), UP(overwrite=1)])
+    # ... --full --overwrite keeps the stale paths (known: full never deletes)
+    yield cmdseq([s0, s1, s1b], [["commit", 0], UP(), ["commit", 1], UP(), ["uncommit", 1], ["commit", 2], UP(full=1, overwrite=1)])
+    # an older mainline revision: refused without --overwrite, incremental backwards with it; then forwards again
+    yield cmdseq([s0, s1, s1b], [["commit", 0], ["commit", 1], ["commit", 2], UP(), UP(rev=1), UP(rev=1, overwrite=1), UP()])
+    # --overwrite when nothing diverged; --full first; same revision twice
+    yield cmdseq([s0, s1], [["commit", 0], UP(full=1), UP(), ["commit", 1], UP(overwrite=1), UP()])
+    # two revisions replaced
+    yield cmdseq([s0, s1, s1b, s0], [["commit", 0], ["commit", 1], ["commit", 2], UP(), ["uncommit", 2], ["commit", 3], UP(), UP(overwrite=1)])
+
+
+def _random_cmd(rng, tier):
+    st = {}
+    nextid = 1
+    states = []
+    script = []
+    depth = 0
+    uploaded_once = False
+    for r in range(rng.randint(3, 6)):
+        for _ in range(rng.randint(2, 3) if r == 0 else rng.choice([1, 1, 2])):
+            # only changes the uploader handles (no renames of nested things etc. are excluded by nothing: all ops)
+            nextid = _mutate(rng, st, nextid, ["add"] if r == 0 else ["add", "add", "delete", "modify", "chmod", "rename", "swap"])
+        states.append([[i] + list(v) for i, v in sorted(st.items())])
+        script.append(["commit", len(states) - 1])
+        depth += 1
+        if rng.random() < 0.7:
+            script.append(UP(full=int(rng.random() < 0.1), overwrite=int(rng.random() < 0.3)))
+            uploaded_once = True
+        if uploaded_once and depth >= 2 and rng.random() < 0.45:
+            n = 1 if depth == 2 or rng.random() < 0.7 else 2
+            script.append(["uncommit", n])
+            depth -= n
+            nextid = _mutate(rng, st, nextid, ["add", "delete", "modify", "rename"])
+            states.append([[i] + list(v) for i, v in sorted(st.items())])
+            script.append(["commit", len(states) - 1])
+            depth += 1
+            script.append(UP())
+            script.append(UP(overwrite=1))
+    if script[-1][0] != "upload":
+        script.append(UP(overwrite=int(rng.random() < 0.5)))
+    return {"kind": "cmd", "revs": [{"ents": x} for x in states], "script": script}
+
+
 def cases(rng, tier):
     yield from _exhaustive_flat()
     yield from _exhaustive_dir()
-    for _ in range(200 if tier == "quick" else 1400):
+    yield from _ignore_boundary_cases()
+    yield from _cmd_corpus()
+    for _ in range(200 if tier == "quick" else 1300):
         yield _random_seq(rng, tier)
+    for _ in range(60 if tier == "quick" else 400):
+        yield _random_cmd(rng, tier)
 
 
 def nontrivial(inp, obs):
-    return len(inp["steps"]) >= 2 and not all(f for f, _ in inp["steps"][1:])
+    steps = plan(inp)[2]
+    return len(steps) >= 2 and not all(f for _, f, _ in steps[1:])
 
 
 def distribution(inputs, observations):
-    d = {"sequences": 0, "uploads": 0, "uploads_ok": 0, "uploads_failed": 0, "full_steps": 0,
+    d = {"sequences": 0, "cmd_sequences": 0, "uploads": 0, "uploads_ok": 0, "uploads_failed": 0, "uploads_refused": 0,
+         "full_steps": 0, "overwrite_diverged": 0,
          "patterns": {}, "classes": {"removed": 0, "added": 0, "renamed": 0, "kind_changed": 0, "modified": 0},
          "with_ignore": 0, "out_of_order": 0}
     for inp, obs in zip(inputs, observations):
         d["sequences"] += 1
         if isinstance(obs, Err):
             continue
-        revs = [rev_map(r) for r in inp["revs"]]
-        if any(rev_ign(r) for r in inp["revs"]):
+        trees, parents, steps = plan(inp)
+        if inp.get("kind") == "cmd":
+            d["cmd_sequences"] += 1
+        if any(rev_ign(r) for r in trees):
             d["with_ignore"] += 1
-        if [k for _, k in inp["steps"]] != sorted(k for _, k in inp["steps"]):
+        if [k for k, _, _ in steps] != sorted(k for k, _, _ in steps):
             d["out_of_order"] += 1
-        uploaded = None
-        for (full, k), st in zip(inp["steps"], obs):
+        marker = None
+        for (k, full, ow), st in zip(steps, obs):
             d["uploads"] += 1
+            if len(st) == 2 and st[0] == "DivergedUploadedTree":
+                d["uploads_refused"] += 1
+                continue
             ok = len(st) == 2 and st[0] == "ok"
             d["uploads_ok" if ok else "uploads_failed"] += 1
+            if marker is not None and not is_ancestor(parents, marker, k):
+                d["overwrite_diverged"] += 1
             if full:
                 d["full_steps"] += 1
-            elif uploaded is not None:
-                c = classify(revs[uploaded], revs[k])
+            elif marker is not None:
+                c = classify(rev_map(trees[marker]), rev_map(trees[k]))
                 for key in d["classes"]:
                     d["classes"][key] += len(c[key])
-                for p in patterns(revs[uploaded], revs[k], rev_ign(inp["revs"][k])):
+                for p in patterns(rev_map(trees[marker]), rev_map(trees[k]), rev_ign(trees[k]), rev_ign(trees[marker])):
                     d["patterns"][p] = d["patterns"].get(p, 0) + 1
-            uploaded = k
+            marker = k
     return d
 
 
 def shrink(inp, fails):
     cur = inp
+    if inp.get("kind") == "cmd":
+        # drop trailing script operations
+        while len(cur["script"]) > 2:
+            cand = dict(cur, script=cur["script"][:-1])
+            try:
+                if not fails(cand):
+                    break
+            except Exception:
+                break
+            cur = cand
+        return cur
     changed = True
     while changed:
         changed = False
